@@ -34,7 +34,7 @@ ASSUMPTIONS = [
 ]
 BOUNDS = {
     "quick": "20-event alphabet, all histories to depth 5, partitioned by 2-event root prefixes",
-    "thorough": "20-event alphabet + rollback points up to 5, all histories to depth 7, partitioned by 3-event root prefixes",
+    "thorough": "22-event alphabet (rollback points up to 5), all histories to depth 6, partitioned by 3-event root prefixes",
 }
 
 TIME_CAP = {"quick": 300, "thorough": 2400}
@@ -282,7 +282,7 @@ def make_enabled(alpha):
 
 
 def _depth(tier):
-    return 5 if tier == "quick" else 7
+    return 5 if tier == "quick" else 6
 
 
 def tasks(tier):
